@@ -74,6 +74,19 @@ func c14Generate(c *mon.Ctx) {
 		for _, via := range mon.ScalarVias {
 			mv := mon.PlanScalarMove(via, hr)
 			c.Structured(func() any { return &c14Case{S: mv.To, Class: "history", Move: &mv} })
+
+			if rep == 0 && via == "add-self" {
+				for i, v := range gen.MontStructured(oracle.N) {
+					vv := mon.SelfVias[i%len(mon.SelfVias)]
+					if vv == "add-to-zero" && v.X.Sign() == 0 {
+						vv = "sub-self"
+					}
+
+					m1, m2 := mon.PlanScalarMoveFrom(vv, hr, v.X), mon.PlanScalarMoveFrom("add-self", hr, v.X)
+					c.Structured(func() any { return &c14Case{S: m1.To, Class: "history", Move: &m1} })
+					c.Structured(func() any { return &c14Case{S: m2.To, Class: "history", Move: &m2} })
+				}
+			}
 		}
 	}
 
